@@ -1354,6 +1354,24 @@ def _assigned_fields(fn):
     return out
 
 
+def _destructures(m):
+    """a match that only takes an enum value apart: every arm pattern is a variant / binding / wildcard, no guards, no literals"""
+    def ok(p):
+        k_ = p.get("k")
+        if k_ in ("Ref", "Box"):
+            return ok(p["pat"])
+        if k_ in ("Bind", "Wild", "Path"):
+            return True
+        if k_ in ("TupleStruct", "Tuple"):
+            return all(ok(q) for q in p.get("pats", []))
+        if k_ == "Struct":
+            return all(ok(f_["pat"]) for f_ in p.get("fields", []))
+        if k_ == "Or":
+            return all(ok(q) for q in p.get("pats", []))
+        return False
+    return all(not a.get("guard") and ok(a["pat"]) for a in m["arms"])
+
+
 def rule_setter(ctx, rid="R-C04-setter", only=None, floor=60):
     """What the check judges is what the caller set: a builder method stores the value it was given (possibly wrapped:
     Some(v), a tuple / variant of its arguments, v.to_string(), an element-wise conversion) - it does not clamp, filter,
@@ -1405,6 +1423,8 @@ def rule_setter(ctx, rid="R-C04-setter", only=None, floor=60):
                     bad = "arithmetic `%s`" % y["op"]
                     break
                 if y.get("k") in ("If", "Match") and y.get("src", "Normal") == "Normal" and any(z.get("k") == "Path" and z.get("local") in params for z in walk(y.get("c") or y.get("scrut"))):
+                    if y.get("k") == "Match" and _destructures(y):
+                        continue        # `match tokenizer { Function(fp) => Some(fp), Regex(..) => None }`: the argument taken apart by variant
                     bad = "a branch on the argument"
                     break
             if bad:
